@@ -199,6 +199,37 @@ theorem stream_replay_faithful_domain (F : FloatCodec) (zero : Int) (recTime : B
     specStream recTime ps G (sObs (streamRoundTrip F 1 zero recTime ps) G) = none :=
   stream_replay_faithful F zero recTime ps G (lp_law_on_domain F 1 ps hdom) hclean
 
+/-- The line written for a point of the domain is ONE token of the quote-aware reader, whatever its string field
+values contain (line feeds, quotes, backslashes, commas …), provided no NAME has a line feed. -/
+theorem line_is_one_token (F : FloatCodec) (mult : Int) (p : SPoint) (h : LineDomain F p) :
+    lpClosed (lineOf F mult p) = true :=
+  lpClosed_lineOf F mult p h
+
+/-- **Stream replay is faithful, stated on the POINTS, with no assumption about the line protocol or the bytes**:
+for every list of points of the domain `LPDomain` to none of which the clause of finding `stream-newline-framing`
+applies (no line feed in a name, no carriage return at the end of db/rp — string field values may contain line feeds),
+whose float texts are line-feed free and whose lines fit the Scanner; both clock modes, every clock zero. -/
+theorem stream_replay_faithful_points (F : FloatCodec) (zero : Int) (recTime : Bool) (ps : List SPoint)
+    (G : List (Bytes × Bool × List Bytes))
+    (hpts : ∀ p ∈ ps, LPDomain F p ∧ FloatTextClean F p ∧ p.dirty = false ∧ FitsScanner F 1 p) :
+    specStream recTime ps G (sObs (streamRoundTrip F 1 zero recTime ps) G) = none :=
+  stream_replay_faithful_domain F zero recTime ps G (fun p hp => (hpts p hp).1)
+    (fun p hp => frame_clean_of_point F 1 p (hpts p hp).1 (hpts p hp).2.1 (hpts p hp).2.2.1 (hpts p hp).2.2.2)
+
+/-- Non-vacuity of `stream_replay_faithful_points`: a point whose string field is `a⏎b"` meets every hypothesis,
+and its replay satisfies the spec. -/
+def exP3 : SPoint := ⟨[100], [114], [109], [], [([115], .str [97, 10, 98, 34])], 7⟩
+
+example : LPDomain exF0 exP3 ∧ FloatTextClean exF0 exP3 ∧ exP3.dirty = false ∧ FitsScanner exF0 1 exP3 := by
+  refine ⟨⟨by decide, by decide, by intro c h; cases h; decide, by decide, by decide, by decide, ?_, by decide, by decide⟩,
+    ?_, by decide, by unfold FitsScanner; decide⟩
+  · intro kv hkv
+    simp only [exP3, List.mem_cons, List.not_mem_nil, or_false] at hkv
+    subst hkv; trivial
+  · intro kv hkv b hb
+    simp only [exP3, List.mem_cons, List.not_mem_nil, or_false] at hkv
+    subst hkv; cases hb
+
 /-- Non-vacuity: the awkward example point is in the domain. -/
 example : LPDomain exF exP1 where
   name_ne := by decide
